@@ -355,6 +355,9 @@ pub struct Stats {
     pub surface_switches: u64,
     pub level_order_breaks: u64,
     pub stall_step_bound: u64,
+    /// stalls seen / relieved in the state of the repaired finding R-P
+    pub stalls_over_file_limit: u64,
+    pub stalls_over_file_limit_relieved: u64,
     pub oversize_unexpected: u64,
     pub ingests: u64,
     pub max_levels: usize,
@@ -961,13 +964,11 @@ impl<'a> Harness<'a> {
         self.tree().verif_should_stall()
     }
 
-    /// The trigger predicate of known finding R-P, computed from the tree shape and the options:
-    /// the smallest L0 compaction (all of L0 plus the closure of level-1 files touching L0's key
-    /// range) already exceeds max_compaction_files.
+    /// The state in which finding R-P (repaired in 2806f7c) used to stall for ever, computed from the
+    /// tree shape and the options: the smallest L0 compaction (all of L0 plus the closure of level-1
+    /// files touching L0's key range) exceeds max_compaction_files.  Kept as a coverage label: a stall
+    /// in this state must be relieved like any other.
     pub fn rp_predicate(&self, levels: &[Vec<SstMetadata>]) -> bool {
-        if std::env::var("VERIF_NO_RP").is_ok() {
-            return false;
-        }
         if levels[0].is_empty() {
             return false;
         }
@@ -996,6 +997,10 @@ impl<'a> Harness<'a> {
             return Ok(true);
         }
         self.stats.stalls_seen += 1;
+        let over_limit = self.rp_predicate(&self.levels());
+        if over_limit {
+            self.stats.stalls_over_file_limit += 1;
+        }
         // Trivial moves are preferred by the selector and each file can move down at most
         // NUM_LEVELS - 1 times, so a relieving compaction may legitimately be preceded by that many
         // moves per live file.
@@ -1004,6 +1009,9 @@ impl<'a> Harness<'a> {
         for _ in 0..bound {
             if !self.should_stall() {
                 self.stats.stalls_relieved += 1;
+                if over_limit {
+                    self.stats.stalls_over_file_limit_relieved += 1;
+                }
                 return Ok(true);
             }
             let worked = self.compaction_step()?;
@@ -1014,15 +1022,14 @@ impl<'a> Harness<'a> {
         }
         if !self.should_stall() {
             self.stats.stalls_relieved += 1;
+            if over_limit {
+                self.stats.stalls_over_file_limit_relieved += 1;
+            }
             return Ok(true);
         }
         // Held back and nothing runnable (single-threaded: nothing is in progress either).
         let levels = self.levels();
-        if self.rp_predicate(&levels) && !self.ctx.strict {
-            self.stats.excluded.push("R-P".into());
-            return Ok(false);
-        }
-        if self.probes.stall && !went_idle && !self.rp_predicate(&levels) {
+        if self.probes.stall && !went_idle {
             // the step bound ran out while the selector still had work: the bound is a heuristic
             // (merges create files while the loop runs); only "selector idle while stalled" is exact
             self.stats.stall_step_bound += 1;
@@ -1897,6 +1904,12 @@ pub fn label_stats(o: &mut Outcome, s: &Stats) {
     }
     if s.verify_unlinked > 0 {
         o.label("verifier-unlinked-files");
+    }
+    if s.stalls_over_file_limit > 0 {
+        o.label("stall:level-0-plus-closure-exceeds-max-compaction-files(R-P state)");
+    }
+    if s.stalls_over_file_limit_relieved > 0 {
+        o.label("stall:relieved-in-the-R-P-state");
     }
     if s.stall_step_bound > 0 {
         o.label("stall-step-bound-exhausted(not-a-verdict)");
